@@ -129,7 +129,9 @@ spec fn get_eos_ok(input: &str, checker: Option<&NonBreakChecker>, rv: isize) ->
     let n = input.spec_bytes().len() as int;
     &&& (n == 0 <==> rv == 0)
     &&& (rv > 0 ==> rv <= n && is_char_boundary(input.spec_bytes(), rv as int)
-            && (checker is Some ==> !some_veto(*checker->Some_0.lexicon, input, rv as int)))
+            && (checker is Some ==> !some_veto(*checker->Some_0.lexicon, input, rv as int))
+            // no break inside an unclosed bracket pair: the terminator match ends (at m) with every bracket closed
+            && exists|m: int| 0 < m <= rv && #[trigger] bracket_level(input.spec_bytes().subrange(0, m)) == 0)
     &&& (rv < 0 ==> -rv <= n && is_char_boundary(input.spec_bytes(), -(rv as int)))
 }
 
@@ -163,8 +165,57 @@ fn re_spaces_find(s: &str) -> (r: Result<Option<ReMatch>, RegexErr>)
 { unimplemented!() }
 /// regex helpers of sentence_detector.rs, NOT verified; assumed: total on the slices get_eos passes, prohibited_bos returns the
 /// byte length of a prefix of whole characters
+/// which characters of a text are opening (true) / closing (false) brackets, in order: the matches of the PARENTHESIS pattern
+/// "([open])|([close])" (ASSUMED: fancy_regex; the bracket sets are the constants OPEN_PARENTHESIS / CLOSE_PARENTHESIS)
+pub uninterp spec fn bracket_events(text: Seq<u8>) -> Seq<bool>;
+/// C16: number of brackets still open at the end of the text - a closing bracket with nothing open is ignored
+spec fn level_of(ev: Seq<bool>, k: int) -> int
+    decreases k
+{
+    if k <= 0 { 0 } else { let l = level_of(ev, k - 1); if ev[k - 1] { l + 1 } else if l > 0 { l - 1 } else { 0 } }
+}
+spec fn bracket_level(text: Seq<u8>) -> int { level_of(bracket_events(text), bracket_events(text).len() as int) }
+proof fn lemma_level_bound(ev: Seq<bool>, k: int)
+    requires 0 <= k <= ev.len()
+    ensures 0 <= level_of(ev, k) <= k
+    decreases k
+{ if k > 0 { lemma_level_bound(ev, k - 1); } }
+pub struct BracketCap { pub open: bool }
+impl BracketCap {
+    /// `caps.get(1)`: the first group (an opening bracket) took part in the match
+    fn get(&self, i: usize) -> (r: Option<ReMatch>) requires i == 1 ensures (r is Some) == self.open { if self.open { Some(ReMatch { s: 0, e: 0 }) } else { None } }
+}
+/// `PARENTHESIS.captures_iter(s)` collected, in order
 #[verifier::external_body]
-fn parenthesis_level(s: &str) -> (r: SudachiResult<usize>) ensures r is Ok { unimplemented!() }
+fn re_parenthesis_captures(s: &str) -> (r: Vec<Result<BracketCap, RegexErr>>)
+    ensures r@.len() == bracket_events(s.spec_bytes()).len(),
+        forall|k: int| 0 <= k < r@.len() ==> (#[trigger] r@[k]) is Ok && r@[k]->Ok_0.open == bracket_events(s.spec_bytes())[k]
+{ unimplemented!() }
+#[verifier::external_body]
+fn re_take_cap(v: &Vec<Result<BracketCap, RegexErr>>, i: usize) -> (r: Result<BracketCap, RegexErr>)
+    requires i < v@.len()
+    ensures r is Ok <==> v@[i as int] is Ok, r is Ok ==> r->Ok_0 == v@[i as int]->Ok_0
+{ unimplemented!() }
+proof fn axiom_vec_len_fits_caps(v: &Vec<Result<BracketCap, RegexErr>>) ensures v@.len() <= usize::MAX { admit(); }
+//@extract sudachi/src/sentence_detector.rs :: fn parenthesis_level
+//@  rw Rlazy 1
+//@  rw R14 1 custom
+//@  | for caps in PARENTHESIS\.captures_iter\(s\) \{
+//@  > let __cs = re_parenthesis_captures(s); let mut __ic: usize = 0; while __ic < __cs.len() { let caps = re_take_cap(&__cs, __ic); __ic += 1;
+//@  ret r
+//@  spec
+    ensures r is Ok, r->Ok_0 == bracket_level(s.spec_bytes()),
+//@  atstart
+    let ghost ev = bracket_events(s.spec_bytes());
+//@  loop 1
+        invariant
+            __cs@.len() == ev.len(), __ic <= __cs@.len(), ev == bracket_events(s.spec_bytes()),
+            forall|k: int| 0 <= k < __cs@.len() ==> (#[trigger] __cs@[k]) is Ok && __cs@[k]->Ok_0.open == ev[k],
+            level == level_of(ev, __ic as int),
+        decreases __cs@.len() - __ic
+//@  loopstart 1
+        proof { lemma_level_bound(ev, __ic as int); axiom_vec_len_fits_caps(&__cs); }
+//@end
 #[verifier::external_body]
 fn prohibited_bos(s: &str) -> (r: SudachiResult<usize>)
     ensures r is Ok, r->Ok_0 <= s.spec_bytes().len(), is_char_boundary(s.spec_bytes(), r->Ok_0 as int)
@@ -302,6 +353,8 @@ impl SentenceDetector {
             proof {
                 if e0 < sb.len() { lemma_suffix_boundary(sb, e0, eos - e0); }
                 lemma_prefix_boundary(ib, sb, eos as int);
+                assert(sb.subrange(0, e0) =~= ib.subrange(0, e0));
+                assert(bracket_level(ib.subrange(0, e0)) == 0);
             }
 //@  before return Ok(-(mat.end() as isize));
                 proof { lemma_prefix_boundary(ib, sb, mat.e as int); }
